@@ -15,7 +15,8 @@ RULE = ("fault enumeration of response frames that pass validation: every valid 
         "shorter length (CRC, length byte and checksum recomputed) and the raw frame cut at every byte; every count / size field set "
         "to every value 0..255; well-formed property answers with every id x every value byte 0..255 and every subset of <= 3 ids present; every response id 0..255 x bodies of length 0..30 (00 / FF / counting); group nibble 0..15; each bad "
         "frame as the only answer to refresh, apply, get_capabilities, toggle_display and start_self_clean, and mixed with a good "
-        "state report in the same exchange (good+bad, bad+good, bad+good+bad). Oracle: nothing escapes the operation; in a mixed "
+        "state report in the same exchange (good+bad, bad+good, bad+good+bad); histories of two and three well-formed answers of one kind with "
+        "very different contents (valid, all zero, all FF, other valid) on one client. Oracle: nothing escapes the operation; in a mixed "
         "exchange the good frame is applied and the device is online. non-trivial = every case")
 ASSUMPTIONS = ["all frames of a mixed exchange arrive before the library resumes (same virtual instant)"]
 DRIVERS = ["refresh", "apply", "get_capabilities", "toggle_display", "start_self_clean", "refresh-props", "refresh-then-ops", "get_capabilities-2nd"]
@@ -137,6 +138,8 @@ def shards(tier):
         for d in ("refresh-props", "apply") + (("refresh",) if tier == "thorough" else ()):
             out.append((g, d, "alone"))
         out.append((g, "refresh-props", "bad+good"))
+    for k in KINDS:
+        out.append(("seq", k, "alone"))
     for g in ("trunc", "fields"):
         for mix in ("good+bad", "bad+good", "bad+good+bad"):
             for d in ("refresh", "apply", "refresh-props"):
@@ -259,8 +262,103 @@ def caps_snapshot(ac):
     return {a: (list(getattr(ac, a)) if isinstance(getattr(ac, a), list) else getattr(ac, a)) for a in CAP_ATTRS}
 
 
+def kind_of(frame: bytes):
+    if len(frame) < 13:
+        return None
+    b = frame[10]
+    if b == 0xC0:
+        return "state"
+    if b == 0xB5:
+        return "caps"
+    if b in (0xB0, 0xB1):
+        return "props"
+    if b == 0xC1 and len(frame) > 14:
+        return {0x44: "energy", 0x45: "humidity"}.get(frame[13] & 0x4F if frame[13] & 0x40 else frame[13])
+    return None
+
+
+def seq_frames(kind: str):
+    """Well-formed answers of one kind with very different contents (a history of them must not trip the client)."""
+    v = valid_frame(kind)
+    b = body_of(v)
+    n = len(b)
+    head = {"state": 1, "caps": 2, "props": 2, "energy": 4, "humidity": 4}[kind]
+    out = [("valid", v), ("zeros", rebuild(b[:head] + bytes(n - head), v[9])), ("ones", rebuild(b[:head] + b"\xff" * (n - head), v[9])),
+           ("valid2", rich_device_frame(kind))]
+    if kind in ("caps", "props"):
+        out.append(("count0", rebuild(b[:1] + b"\x00" + b[2:], v[9])))
+        out[1] = ("zeros", rebuild(b[:1] + bytes(n - 1), v[9]))
+    return out
+
+
+def rich_device_frame(kind: str) -> bytes:
+    dev = rich_device()
+    if kind == "state":
+        return dev.report(0x03, 3)
+    if kind == "caps":
+        return dev._caps_frame(0, 3)
+    if kind == "props":
+        return dev._props_frame(0xB1, [0x0009, 0x000A], 0x03, 3)
+    if kind == "energy":
+        return rc.frame_build(bytes([0xC1, 0x21, 0x01, 0x44]) + dev.energy + bytes([3]), 0x03)
+    return rc.frame_build(bytes([0xC1, 0x21, 0x01, 0x45, dev.humidity_now]) + bytes(15) + bytes([3]), 0x03)
+
+
+def run_seq(st: Stats, kind: str):
+    """Histories of two and three well-formed answers of the same kind on one capability-aware client."""
+    from itertools import product
+    fr = seq_frames(kind)
+    for seq in list(product(range(len(fr)), repeat=2)) + list(product(range(len(fr)), repeat=3)):
+        cur = {"f": None}
+
+        def script(req):
+            for p in req.responses:
+                honest_kind = kind_of(rc.v2_parse(p).frame)
+                if cur["f"] is not None and honest_kind == kind:
+                    req.send(req.dev.wrap(req.conn, cur["f"]))
+                else:
+                    req.send(p)
+
+        rig = Rig(2, ac=rich_device(), script=script)
+        ac = rig.client()
+        ac.enable_energy_usage_requests = True
+
+        async def drive():
+            await ac.get_capabilities()
+            await ac.refresh()
+            for i in seq:
+                cur["f"] = fr[i][1]
+                if kind == "caps":
+                    await ac.get_capabilities()
+                await ac.refresh()
+                await ac.apply()
+            cur["f"] = None
+            await ac.toggle_display()
+            await ac.refresh()
+            return ac.online
+
+        label = "+".join(fr[i][0] for i in seq)
+        case = {"label": f"seq {kind} {label}", "frame": b"", "driver": "seq", "mix": "alone", "kind": kind, "seq": list(seq)}
+        try:
+            out = rig.run(drive())
+        finally:
+            rig.close()
+        prob = None
+        if out[0] != "ok":
+            prob = f"raised {type(out[1]).__name__}"
+        elif not out[1]:
+            prob = "device offline after an honest refresh that followed the sequence"
+        if prob:
+            st.violation(f"sequence of well-formed {kind} answers: {prob}", case, "no operation raises", prob, str(out[1])[:200])
+        st.ev(("seq", kind, seq), "contained" if not prob else "escaped", True)
+
+
 def run_shard(shard, tier) -> Stats:
     group, driver, mix = shard
+    if group == "seq":
+        st = Stats()
+        run_seq(st, driver)
+        return st
     part, nparts = 0, 1
     if ":" in group:
         group, frac = group.split(":")
@@ -330,6 +428,10 @@ def run_shard(shard, tier) -> Stats:
 
 
 def replay(case):
+    if case.get("driver") == "seq":
+        st = Stats()
+        run_seq(st, case["kind"])
+        return sorted(st.viol_counts)
     out, ac, dm = execute(case["frame"], case["driver"], case["mix"])
     res = {"outcome": str(out)[:300], "online": ac.online, "after": getattr(ac, "_c14_tally", None)}
     if case["driver"] == "refresh-props" and case["mix"] != "alone":
